@@ -1,17 +1,18 @@
 PROP = {
-    "kani_groups": ["hk_emit_min"],
+    "kani_groups": ["hk_emit_min", "hk_emit_pan"],
     "smt": [],
     "technique": "bounded model checking (Kani/CBMC) of SpanGuard over symbolic operation sequences, filter verdicts and clock readings",
     "functions": [
         "emit::span::SpanGuard::{new, push_ctxt, start, is_enabled, with_completion, with_mdl, with_name, with_props, map_props, complete, complete_default, complete_with, drop}",
+        "emit::__private::{__private_complete_span, __PrivateCompleteSpan::complete, CaptureLevel}, completion::Default::{with_lvl, with_panic_lvl, complete} incl. the panicking branch (std)",
         "emit::timer::Timer::{start, extent}, Span::new, completion::{Default::complete, default, &C, Empty}, emit_core::emit, Frame::{push, disabled, call}",
     ],
     "bounds": "<= 3 (thorough 4) symbolic builder operations from {start, with_name, with_mdl, with_props, map_props, with_completion} "
               "followed by one of {drop, complete, complete_with}; filter verdict symbolic; every clock reading an arbitrary Option<Timestamp> "
               "(second resolution); harness Ctxt (array-backed) as the ambient context",
-    "outside": "real panic unwinding (Kani aborts at a panic: the Drop code is exercised on the normal path; the std-only thread::panicking "
-               "branch of the default completion is compiled out in this no_std group); the #[emit::span] macro forms",
-    "stubs": ["clock = scripted sequence of symbolic readings", "rng = counter (non-zero, non-repeating)", "filter/completion/emitter = recorders",
+    "outside": "real panic unwinding (Kani aborts at a panic: the completion code runs on the normal path with std::thread::panicking() a harness-drawn "
+               "flag: group hk_emit_pan, c05_q_macro_hook_panic_level; the std build itself does not fit); the attribute-macro expansions themselves beyond the hook they call",
+    "stubs": ["is_panicking() of the default completion -> harness-drawn flag in the no_std build (stubs/panicking_nostd.toml, group hk_emit_pan)", "clock = scripted sequence of symbolic readings", "rng = counter (non-zero, non-repeating)", "filter/completion/emitter = recorders",
               "Ctxt = array-backed harness implementation of the public trait (env::ArrCtxt)"],
     "assumptions": [],
     "timeout": {"quick": 900, "thorough": 5400},
